@@ -15,6 +15,9 @@ bad = 0
 t0 = time.time()
 for sp in specs:
     r = explore_case(mod.make_case(sp), [], fidelity="none", stop_at_first=True, profile=False, max_paths=3000)
+    if r.get("errors"):
+        bad += 1
+        print("HARNESS-ERROR", json.dumps(sp), str(r["errors"])[:300])
     if r["cexs"]:
         bad += 1
         print("CEX", json.dumps(sp), [c.get("label") for c in r["cexs"]][:2])
